@@ -1005,13 +1005,29 @@ func (e *Engine) QueryPreparedStmt(ctx context.Context, tx *SQLTx, stmt DataSour
 			})
 		} else {
 			// DML with RETURNING: commit the transaction on close
-			r.onClose(func() {
-				qtx.Commit(ctx)
-			})
+			return &commitOnCloseRowReader{RowReader: r, ctx: ctx, tx: qtx}, nil
 		}
 	}
 
 	return r, nil
+}
+
+// commitOnCloseRowReader commits the auto-created transaction of a DML ... RETURNING
+// query when the reader is closed and reports the outcome of that commit to the caller
+type commitOnCloseRowReader struct {
+	RowReader
+	ctx context.Context
+	tx  *SQLTx
+}
+
+func (r *commitOnCloseRowReader) Close() error {
+	err := r.RowReader.Close()
+	if err != nil {
+		r.tx.Cancel()
+		return err
+	}
+
+	return r.tx.Commit(r.ctx)
 }
 
 func (e *Engine) Catalog(ctx context.Context, tx *SQLTx) (catalog *Catalog, err error) {
